@@ -14,16 +14,23 @@ ENGINES = [
      "kind_free_text": "bounded-exhaustive product enumerator over declared "
                        "finite input/configuration spaces, simplest first, "
                        "16 worker processes, independent reference oracles"},
-    {"name": "E-STATE", "path": "mc/bfs.py",
+    {"name": "E-STATE", "path": "mc/sharded_explore.py",
      "serves_properties": ["C03", "C04", "C05", "C12", "C19"],
      "kind_free_text": "explicit-state breadth-first search whose transition "
                        "relation is the real implementation; full-state "
-                       "hashing, reference-model agreement in every state"},
-    {"name": "E-DEV", "path": "mc/deviate.py",
+                       "hashing, reference-model agreement in every state "
+                       "(sharded writer: mc/sharded_explore.py; file "
+                       "storage, dataset I/O and CLI sequences: the bfs / "
+                       "explore functions of mc/props/C12, C03, C19)"},
+    {"name": "E-DEV", "path": "mc/env/iosim.py",
      "serves_properties": ["C14", "C18"],
      "kind_free_text": "deviation-bounded explorer: every I/O point x every "
                        "alternative environment answer (errno, short write, "
-                       "kill, HTTP reply), bound 1 then 2"},
+                       "kill, HTTP reply), bound 1 then 2 (file-system seam "
+                       "mc/env/iosim.py + mc/props/C18; HTTP seam "
+                       "mc/env/httpsim.py + mc/props/C14; strace / socket / "
+                       "subprocess conformance replays bind the seams to "
+                       "the real environment)"},
 ]
 
 NOT_APPLICABLE = {}
